@@ -1,5 +1,5 @@
 import sys, json
-sys.path.insert(0,'/verif'); sys.path.insert(0,'/repo/src')
+sys.path.insert(0,'/verif'); sys.path.insert(0, __import__('os').environ.get('VERIF_REPO_SRC', '/repo/src'))
 from harness import gen
 prof=sys.argv[1]; seed=int(sys.argv[2])
 p=gen.gen_program(seed, gen.PROFILES[prof])
